@@ -95,21 +95,33 @@ EXEMPT = [
 ]
 
 
+ANCHORED = [
+    # (module, attribute path): resolved tolerantly - a name that a rewrite of
+    # /repo removed or renamed is skipped and reported, never an error
+    ('MIP.mip.datacard', 'expand_data_card'), ('MIP.mip.datacard', 'linspace'),
+    ('MIP.mip.datacard', 'logspace'), ('MIP.mip.datacard', 'split'),
+    ('MIP.mip.datacard', 'to_float'),
+    ('MIP.geom.cells', 'get_cell_importances'), ('MIP.geom.cells', 'get_cells'),
+    ('MIP.mip.cellcard', 'split'),
+] + [('t4_geom_convert.Kernel.FileHandlers.Parser.ParseMCNPCell',
+      'ParseMCNPCell.' + name)
+     for name in ('__init__', 'parse_importance_cards', 'parse',
+                  'parse_all_cells', 'parse_one_cell', 'parse_one_cell_worker',
+                  'parse_material', 'apply_but', 'to_fillid', 'parse_keywords',
+                  'parse_fill_kw', 'parse_lat_kw', 'parse_trcl_kw')]
+
+
 def anchored_functions():
-    from MIP.mip import datacard, cellcard
-    from MIP.geom import cells
-    from t4_geom_convert.Kernel.FileHandlers.Parser.ParseMCNPCell import \
-        ParseMCNPCell
-    funcs = [datacard.expand_data_card, datacard.linspace, datacard.logspace,
-             datacard.split, cells.get_cell_importances, cells.get_cells,
-             cellcard.split]
-    if hasattr(datacard, 'to_float'):
-        funcs.append(datacard.to_float)
-    funcs += [ParseMCNPCell.__init__, ParseMCNPCell.parse_importance_cards,
-              ParseMCNPCell.parse, ParseMCNPCell.parse_all_cells,
-              ParseMCNPCell.parse_one_cell, ParseMCNPCell.parse_one_cell_worker,
-              ParseMCNPCell.parse_material, ParseMCNPCell.apply_but,
-              ParseMCNPCell.to_fillid, ParseMCNPCell.parse_keywords,
-              ParseMCNPCell.parse_fill_kw, ParseMCNPCell.parse_lat_kw,
-              ParseMCNPCell.parse_trcl_kw]
-    return funcs
+    '''(functions found, names not found).'''
+    import importlib
+    funcs, missing = [], []
+    for modname, path in ANCHORED:
+        try:
+            obj = importlib.import_module(modname)
+            for part in path.split('.'):
+                obj = getattr(obj, part)
+            getattr(obj, '__func__', obj).__code__   # a plain function?
+            funcs.append(obj)
+        except Exception:       # pylint: disable=broad-except
+            missing.append(f'{modname}.{path}')
+    return funcs, missing
